@@ -86,9 +86,10 @@ func runE2E(t *rapid.T, scn e2eScn, w *e2eWorld, pl payload, sel datamodel.Node,
 		return 0
 	}
 	if scn.customStore && !scn.pull {
-		_ = b.mgr.RegisterTransportConfigurer(e2eType, func(datatransfer.ChannelID, datatransfer.TypedVoucher) []datatransfer.TransportOption {
+		b.configurer = func(datatransfer.ChannelID, datatransfer.TypedVoucher) []datatransfer.TransportOption {
 			return []datatransfer.TransportOption{gstransport.UseStore(custom.linkSystem(false))}
-		})
+		}
+		_ = b.mgr.RegisterTransportConfigurer(e2eType, b.configurer)
 	}
 	// responder controller
 	b.mu.Lock()
@@ -130,9 +131,16 @@ func runE2E(t *rapid.T, scn e2eScn, w *e2eWorld, pl payload, sel datamodel.Node,
 					// the restart re-validates: that lifts / raises the limit
 					b.val.Default = dbl.Outcome{Result: datatransfer.ValidationResult{Accepted: true, DataLimit: nl, RequiresFinalization: scn.reqFinal}}
 					var err error
-					if scn.fault == "cut-restart-initiator" {
+					switch scn.fault {
+					case "cut-restart-initiator":
 						err = a.mgr.RestartDataTransferChannel(w.ctx, chid)
-					} else {
+					case "cut-restart-responder":
+						err = b.mgr.RestartDataTransferChannel(w.ctx, chid)
+					case "process-restart-initiator":
+						a.restartProcess(t, w.ctx)
+						err = a.mgr.RestartDataTransferChannel(w.ctx, chid)
+					case "process-restart-responder":
+						b.restartProcess(t, w.ctx)
 						err = b.mgr.RestartDataTransferChannel(w.ctx, chid)
 					}
 					logf("restart returned %v", err)
@@ -349,7 +357,12 @@ func TestC01_E2E(t *testing.T) {
 				last = l
 			}
 			if len(scn.limits) > 0 && rapid.IntRange(0, 2).Draw(t, "fault") == 0 {
-				scn.fault = rapid.SampledFrom([]string{"cut-restart-initiator", "cut-restart-responder"}).Draw(t, "faultKind")
+				kinds := []string{"cut-restart-initiator", "cut-restart-responder", "process-restart-responder"}
+				if !(scn.customStore && scn.pull) {
+					// options passed to OpenPull live in memory only: a restarted initiator cannot know the per-channel store
+					kinds = append(kinds, "process-restart-initiator")
+				}
+				scn.fault = rapid.SampledFrom(kinds).Draw(t, "faultKind")
 				scn.faultAtLimit = rapid.IntRange(0, len(scn.limits)-1).Draw(t, "faultAt")
 			}
 		}
@@ -391,8 +404,11 @@ func TestC01_E2E(t *testing.T) {
 			if len(scn.limits) > 0 {
 				sp.Class("completed_with_limit_rounds")
 			}
-			if scn.fault != "" {
+			if strings.HasPrefix(scn.fault, "cut") {
 				sp.Class("completed_after_cut_and_restart")
+			}
+			if strings.HasPrefix(scn.fault, "process") {
+				sp.Class("completed_after_process_restart")
 			}
 			if scn.reqFinal {
 				sp.Class("completed_with_finalization")
